@@ -38,6 +38,11 @@ def _body_wo_doc(fn: ast.FunctionDef) -> List[ast.stmt]:
     b = list(fn.body)
     if b and isinstance(b[0], ast.Expr) and isinstance(b[0].value, ast.Constant) and isinstance(b[0].value.value, str):
         b = b[1:]
+    # `if c: return A` + `return B` (the statement form the model gives `return A if c else B`) is that one expression again: a helper
+    # that is a single conditional expression is expanded in place like any other expression helper
+    if len(b) == 2 and isinstance(b[0], ast.If) and not b[0].orelse and len(b[0].body) == 1 and isinstance(b[0].body[0], ast.Return) and \
+            b[0].body[0].value is not None and isinstance(b[1], ast.Return) and b[1].value is not None:
+        b = [ast.copy_location(ast.Return(value=ast.copy_location(ast.IfExp(test=b[0].test, body=b[0].body[0].value, orelse=b[1].value), b[0])), b[0])]
     return b
 
 
